@@ -88,6 +88,11 @@ func runC20(o *cli.Opts, run *evid.Run) {
 			c20Mode(o, run, bin, mode, "")
 		}()
 	}
+	for _, mode := range modes {
+		mode := mode
+		wg.Add(1)
+		go func() { defer wg.Done(); c20Instances(o, run, mode) }()
+	}
 	wg.Wait()
 	if o.Thorough() {
 		if rbin, err := proc.BuildBinary(o.Out, o.Scratch, o.Repo, true); err == nil {
@@ -101,6 +106,7 @@ func runC20(o *cli.Opts, run *evid.Run) {
 	run.Require("max client overlap", run.GetInt("max_overlap"), 4)
 	run.Require("long-lived (>30 s) requests", run.GetInt("slow_requests"), 1)
 	run.Require("quiescent gauge reads between bursts", run.GetInt("quiescent_gauge_reads"), 200)
+	run.Require("server instances started in a process that had already run one", run.GetInt("instance_rounds")-2, 2)
 }
 
 func c20Mode(o *cli.Opts, run *evid.Run, bin, mode, variant string) {
